@@ -23,7 +23,7 @@ Touch   == {"o1", "o2", "o3", "Fp", "Gp"}     \* objects histories operate on an
 Keys    == {"a", "b", "1", "s"}               \* "s": shadow key written by setters only
 Fns     == {"F", "G"}
 
-AllDevs == {"Dev_FnProtoAssign", "Dev_InOwnOnly", "Dev_ProtoCycle", "Dev_ComputedKeyLiteral",
+AllDevs == {"Dev_FnProtoNoObjectProto", "Dev_FnProtoAssign", "Dev_InOwnOnly", "Dev_ProtoCycle", "Dev_ComputedKeyLiteral",
             "Dev_FnNotObject", "Dev_CtorEnumerable", "Dev_GetterFirst", "Dev_SetterFirst",
             "Dev_DeleteKeepsAccessor", "Dev_EnumSkipsAccessors", "Dev_DefinePropMerge"}
 
@@ -37,15 +37,16 @@ Plain(p) == [kind |-> "plain", proto |-> p, own |-> <<>>]
 Ent(k, d, v, ord, g, st, en) == [k |-> k, d |-> d, v |-> v, ord |-> ord, g |-> g, st |-> st, en |-> en]
 CtorEnt(f) == Ent("constructor", TRUE, "fn:" \o f, 0, 0, 0, FALSE)
 
-State0 ==
+State0D(dv) ==
   [h |-> [x \in Ids |->
             CASE x = "OP"  -> Plain("null")
               [] x = "FnP" -> Plain("OP")
-              [] x = "Fp"  -> [Plain("OP") EXCEPT !.own = <<CtorEnt("F")>>]
+              [] x = "Fp"  -> [Plain(IF "Dev_FnProtoNoObjectProto" \in dv THEN "null" ELSE "OP") EXCEPT !.own = <<CtorEnt("F")>>]
               [] x = "Gp"  -> [Plain("Fp") EXCEPT !.own = <<CtorEnt("G")>>]     \* setup: setPrototypeOf(G.prototype, F.prototype)
               [] OTHER     -> NoObj],
    fp |-> [f \in Fns |-> IF f = "F" THEN "Fp" ELSE "Gp"],
    clk |-> 1]
+State0 == State0D({})
 
 Alloc(st, x) == x \in Ids /\ st.h[x].kind # "none"
 IsFn(st, x)  == st.h[x].kind = "function"
@@ -120,12 +121,20 @@ ObsTypeof(st, x) == IF IsFn(st, x) THEN "'function" ELSE "'object"
 
 \* an observation: [o |-> kind, x |-> object, k |-> key / function, f |-> key form]
 Ob(o, x, k, f) == [o |-> o, x |-> x, k |-> k, f |-> f]
-ReadForms == {<<"a", "id">>, <<"a", "str">>, <<"b", "comp">>, <<"1", "num">>, <<"1", "str">>, <<"s", "id">>}
-ObsOn(x) == {Ob("rd", x, kf[1], kf[2]) : kf \in ReadForms}
-            \cup {Ob(o, x, k, "") : o \in {"in", "own"}, k \in Keys}
-            \cup {Ob(o, x, "", "") : o \in {"keys", "values", "entries", "forin", "proto", "typeof"}}
-            \cup {Ob("inst", x, f, "") : f \in Fns}
-Battery == UNION {ObsOn(x) : x \in Touch} \cup {Ob("fproto", "", f, "") : f \in Fns}
+\* the battery evaluated after a step, in a fixed order: BatteryOn for each of BatteryObjs, then BatteryGlob
+ReadSeq == <<<<"a", "id">>, <<"a", "str">>, <<"b", "comp">>, <<"1", "num">>, <<"1", "str">>, <<"s", "id">>>>
+KeySeq  == <<"a", "b", "1", "s">>
+BatteryOn ==
+  [j \in 1..6 |-> Ob("rd", "X", ReadSeq[j][1], ReadSeq[j][2])]
+  \o [j \in 1..4 |-> Ob("in", "X", KeySeq[j], "")] \o [j \in 1..4 |-> Ob("own", "X", KeySeq[j], "")]
+  \o <<Ob("keys", "X", "", ""), Ob("values", "X", "", ""), Ob("entries", "X", "", ""), Ob("forin", "X", "", ""),
+       Ob("proto", "X", "", ""), Ob("typeof", "X", "", ""), Ob("inst", "X", "F", ""), Ob("inst", "X", "G", "")>>
+BatteryObjs == <<"o1", "o2", "o3", "Fp", "Gp">>
+BatteryGlob == <<Ob("fproto", "", "F", ""), Ob("fproto", "", "G", "")>>
+Battery == [j \in 1..(Len(BatteryOn) * Len(BatteryObjs) + Len(BatteryGlob)) |->
+              IF j <= Len(BatteryOn) * Len(BatteryObjs)
+              THEN [BatteryOn[((j - 1) % Len(BatteryOn)) + 1] EXCEPT !.x = BatteryObjs[((j - 1) \div Len(BatteryOn)) + 1]]
+              ELSE BatteryGlob[j - Len(BatteryOn) * Len(BatteryObjs)]]
 ListObs == {"keys", "values", "entries", "forin"}
 Observe(st, dv, ob) ==
   CASE ob.o = "rd"      -> <<Get(st, dv, ob.x, ob.k)>>
